@@ -47,7 +47,34 @@ def r_counter(j):
                                          rbytes(j["next"]), rnum(j["life"]))
 
 
+def runit(o):
+    return {"ok": "(Ok tt)", "err": "Err", "panic": "Panic"}[o["c"]]
+
+
+def r_keygen(j):
+    vs = "[%s]" % "; ".join("(%d, %d)" % (a, b) for a, b in j["variants"])
+    return "CKeygen %s %s %s %s %s" % (nat(HASH_N[j["hash"]]), vs, b(j["seed"]), rbytes(j["sk"]), rbytes(j["pk"]))
+
+
+def r_sign(j):
+    calls = "[%s]" % "; ".join("(%s, %s)" % (b(c[0]), "true" if c[1] else "false") for c in j["calls"])
+    return "CSign %s %s %s %s %s %s" % (nat(HASH_N[j["hash"]]), b(j["blob"]), b(j["msg"]),
+                                        "true" if j["accept"] else "false", rbytes(j["sig"]), calls)
+
+
+def r_verify(j):
+    return "CVerify %s %s %s %s %s" % (nat(HASH_N[j["hash"]]), b(j["msg"]), b(j["sig"]), b(j["pk"]), runit(j["verdict"]))
+
+
+def r_lifetime(j):
+    return "CLifetime %s %s %s" % (nat(HASH_N[j["hash"]]), b(j["blob"]), rnum(j["life"]))
+
+
 KINDS = {
+    "keygen": r_keygen,
+    "sign": r_sign,
+    "verify": r_verify,
+    "lifetime": r_lifetime,
     "ots_param": r_ots_param,
     "coefs": r_coefs,
     "digits": r_digits,
